@@ -15,7 +15,7 @@ use crate::Cfg;
 pub const FLOORS: &[&str] = &[
     "after:accepted", "after:rejected_in_lexer", "after:rejected_after_labels", "after:rejected_in_backpatch",
     "after:rejected_in_emit", "shares_labels_with_predecessor", "repeat_same_source", "with_orig", "without_orig",
-    "with_break", "histories", "after_many_labels",
+    "with_break", "histories", "after_many_labels", "extension_program:flag_on", "extension_program:flag_off",
 ];
 
 fn summary(o: &AsmOutcome) -> String {
@@ -55,6 +55,11 @@ fn gen_source(rng: &mut Rng, stack: bool, prev_labels: &[String]) -> (String, &'
         0 => (rng.s(&["add r0 r0 #99\n", "x\u{e9} add r0 r0 r0\n@\n", ".stringz \"open\nhalt\n", ".bogus\n", "#70000\n",
             // a stack mnemonic: a lexer error exactly when the feature is off
             "push r0\nhalt\n", "lab pop r1\n", "add r0 r0 #1\ncall sub\nsub rets\n", "RETS\n"]).to_string(), "lexer_or_parser"),
+        7 if rng.bool() => {
+            // a valid program but for the extension mnemonics in it: accepted exactly when this
+            // thread's feature flag is on - whatever other threads of the process were given
+            (rng.s(&["push r0\npop r1\nhalt\n", "call f\nhalt\nf rets\n", "PUSH R3\nhalt\n", "lab pop r1\nhalt\n"]).to_string(), "extension_program")
+        }
         1 if rng.bool() => {
             // fails in the parser after a *forward reference* was recorded; the label it names is
             // unlikely to exist in the next source
@@ -156,6 +161,22 @@ fn one_case(seed: u64, i: u64) -> CaseOut {
             return out;
         };
         let fs = summary(&fresh);
+        if *kind == "extension_program" {
+            out.class(if stack { "extension_program:flag_on" } else { "extension_program:flag_off" });
+            if matches!(fresh, AsmOutcome::Ok(_)) != stack {
+                out.violate(
+                    "C19/depends-on-other-threads",
+                    i,
+                    format!(
+                        "a program using the stack extension is {} on a fresh thread whose feature flag is {}",
+                        if stack { "rejected" } else { "accepted" },
+                        if stack { "on" } else { "off" }
+                    ),
+                    J::obj(vec![("source", J::s(text)), ("result", J::s(&fs)), ("stack_feature", J::B(stack))]),
+                );
+                return out;
+            }
+        }
         if fs != results[k] {
             let pred_kind = if k > 0 { sources[k - 1].1 } else { "none" };
             out.violate(
